@@ -1,10 +1,13 @@
 package main
 
 import (
+	"encoding/hex"
 	"encoding/json"
 	"flag"
 	"fmt"
 	"os"
+	"sort"
+	"strings"
 
 	"github.com/dominant-strategies/go-quai/common"
 	"github.com/dominant-strategies/go-quai/core/rawdb"
@@ -15,32 +18,78 @@ import (
 	"verifharness/mininet"
 )
 
-// crash mode (C11): for a sequence of zone-level steps (append of a block with real content, and
-// reorganisations) EVERY prefix of the database write operations issued by the step is turned into
-// a crash: the surviving image is copied, a new zone core is constructed on it, and the node must
-// (a) start, (b) report a head whose state is present and equals its commitments, (c) rebuild its
-// pending header, (d) accept the interrupted block / complete the interrupted switch, (e) mine on.
+// crash mode (C11).  Prime, region and zone run in ONE process on three databases; all three are wrapped with
+// ONE faultdb.Ctl (one global write counter).  For a sequence of steps
+//
+//	zone | region | prime   append of a block of that order carrying real transactions (Insert at the order level,
+//	                        cascading Slice.Append into the subordinate chains, then the head update at every level)
+//	reorg                   zone-level reorganisation, 2 blocks back / 1 forward
+//	<kind>+size             the same with every batch reporting ValueSize() x SizeFactor, so that every size-triggered
+//	                        flush point (`if batch.ValueSize() > ethdb.IdealBatchSize { Write; Reset }`) fires
+//
+// EVERY prefix of the write operations the step issues (on any of the three databases) is turned into a crash of the
+// whole process: the three surviving images are copied, three NEW cores are constructed on them, and the node must
+// (a) start at every level, (b) report heads whose state is present and equals the header commitments (zone) and whose
+// canonical index leads to genesis (all levels), (c) complete the interrupted step when the block is offered again
+// at its order level, (d) accept the SAME continuation blocks a node that never crashed mined afterwards (zone, region,
+// prime, zone), (e) end with byte-identical ETX bookkeeping records (inbound / pending / rollup) and zone ledger as
+// that node, (f) mine on.
 
 type crashFailure struct {
 	Step   int    `json:"step"`
-	Kind   string `json:"kind"`   // append | reorg
+	Kind   string `json:"kind"`
 	Point  int    `json:"point"`  // number of write operations that survived
-	Of     int    `json:"of"`     // total write operations of the step
-	Window string `json:"window"` // "<last surviving op class>|<first lost op class>"
+	Of     int    `json:"of"`     // total write operations of the step (reference run)
+	Window string `json:"window"` // "<db>:<last surviving op class>|<db>:<first lost op class>"
 	Phase  string `json:"phase"`
 	Err    string `json:"err"`
 }
 
-func snapshot(db ethdb.Database) ethdb.Database {
-	return mininet.LocDB{Database: rawdb.NewDatabase(faultdb.CopyMem(db)), Loc: mininet.ZoneLoc}
+var dbNames = [3]string{"prime", "region", "zone"}
+
+func snapshotCtx(db ethdb.Database, ctx int) ethdb.Database {
+	return mininet.LocDB{Database: rawdb.NewDatabase(faultdb.CopyMem(db)), Loc: mininet.Locs[ctx]}
+}
+
+type image [3]ethdb.Database
+
+func snapshotAll(n *mininet.Net) image {
+	var im image
+	for ctx := 0; ctx < 3; ctx++ {
+		im[ctx] = snapshotCtx(n.DBs[ctx], ctx)
+	}
+	return im
+}
+
+func (im image) copy() [3]ethdb.Database {
+	var out [3]ethdb.Database
+	for ctx := 0; ctx < 3; ctx++ {
+		out[ctx] = snapshotCtx(im[ctx], ctx)
+	}
+	return out
+}
+
+func opName(o *faultdb.Op) string { return o.DB + ":" + o.Class }
+
+// retryable: the answers go-quai gives while bookkeeping of a subordinate chain is still missing; the node keeps the
+// block in its append queue and offers it again (after c_pEtxRetryThreshold refusals the dominant chain fetches
+// the pending ETXs from its subordinate chain).
+func retryable(err error) bool {
+	if err == nil {
+		return false
+	}
+	s := err.Error()
+	return strings.Contains(s, "sub not synced to dom") || strings.Contains(s, "pending etx not found") || strings.Contains(s, "block cannot be appended yet")
 }
 
 func cmdCrash(args []string) {
 	fs := flag.NewFlagSet("crash", flag.ExitOnError)
 	seed := fs.Int64("seed", 1, "")
-	nsteps := fs.Int("steps", 4, "number of crash-enumerated steps")
+	planS := fs.String("plan", "zone,region,prime,reorg", "comma separated step kinds: zone|region|prime|reorg, each optionally +size")
+	factor := fs.Int("sizefactor", 4000, "ValueSize multiplier of the +size steps")
 	out := fs.String("out", "", "result json")
 	verbose := fs.Bool("v", false, "")
+	fs.Int("steps", 0, "(ignored; use -plan)")
 	fs.Parse(args)
 	chain.FastParams()
 	for d := range types.TrimDepths {
@@ -48,7 +97,7 @@ func cmdCrash(args []string) {
 	}
 	ctl := &faultdb.Ctl{}
 	e, err := chain.Boot(chain.EnvOptions{Net: mininet.Options{Quiet: !*verbose, MinerPreference: 0.5,
-		WrapZoneDB: func(db ethdb.Database) ethdb.Database { return faultdb.Wrap(db, ctl) }}, Seed: uint64(*seed)})
+		WrapDB: func(ctx int, db ethdb.Database) ethdb.Database { return faultdb.WrapNamed(db, ctl, dbNames[ctx]) }}, Seed: uint64(*seed)})
 	if err != nil {
 		fatal(3, "boot:", err)
 	}
@@ -59,37 +108,49 @@ func cmdCrash(args []string) {
 	}
 	n := e.Net
 	r.Verbose = *verbose
-	head := 0
-	mine := func(parent, content int) int {
-		if content > 0 {
-			r.RandomContent(content)
-		}
-		id, err := r.MineOn(parent, -1)
-		if err != nil {
-			fatal(3, "mine:", err)
-		}
-		return id
-	}
-	head, err = r.WarmUp()
+	head, err := r.WarmUp()
 	if err != nil {
 		fatal(3, "warm-up:", err)
 	}
 	for i := 0; i < 3; i++ {
-		head = mine(head, 4)
+		r.RandomContent(4)
+		if head, err = r.MineOn(head, -1); err != nil {
+			fatal(3, "mine:", err)
+		}
 	}
-	P, R := n.PrimeCore().CurrentHeader().Hash(), n.RegionCore().CurrentHeader().Hash()
 
 	var failures []crashFailure
 	type stepInfo struct {
-		Kind   string       `json:"kind"`
-		Ops    []faultdb.Op `json:"ops"`
-		Points int          `json:"points"`
-		NTx    int          `json:"ntx"`
+		Kind          string       `json:"kind"`
+		Order         int          `json:"order"`
+		Ops           []faultdb.Op `json:"ops"`
+		Points        int          `json:"points"`  // crash points enumerated
+		Skipped       int          `json:"skipped"` // prefixes inside a run of pure trie-node batches (+size steps only)
+		NTx           int          `json:"ntx"`
+		Retries       int          `json:"retries"`        // refusals "cannot append yet" answered while recovering (self-healing path)
+		RetryWindows  []string     `json:"retry_windows"`  // crash windows that needed it
+		InboundEtxs   int          `json:"inbound_etxs"`   // ETXs in the compared inbound records of the continuation (reference run)
+		RecordsCmp    int          `json:"records_compared"`
+		SpecPositions []int        `json:"spec_positions"` // number of specification-level writes that survived, per enumerated crash point
+		RedoSpec      [][]string   `json:"redo_spec"`      // specification-level writes issued while the interrupted step was completed, per crash point (nil if recovery failed earlier)
 	}
 	var stepsOut []stepInfo
 	totalPoints := 0
 
-	sealZone := func() *mininet.Mined {
+	heads := func() (common.Hash, common.Hash, common.Hash) {
+		return n.PrimeCore().CurrentHeader().Hash(), n.RegionCore().CurrentHeader().Hash(), n.ZoneCore().CurrentHeader().Hash()
+	}
+	// a fresh process on (copies of) the given images, pending header rebuilt on its own heads
+	boot := func(im image) error {
+		ctl.NewGeneration() // whatever the previous incarnation still tries to write is lost
+		ctl.Disarm()
+		if err := n.RestartAll(im.copy()); err != nil {
+			return err
+		}
+		p, rg, z := heads()
+		return n.SetHead(p, rg, z)
+	}
+	seal := func(order int) *mininet.Mined {
 		if err := n.Refill(); err != nil {
 			fatal(3, "refill:", err)
 		}
@@ -97,194 +158,408 @@ func cmdCrash(args []string) {
 		if err != nil {
 			fatal(3, "pending:", err)
 		}
-		if _, err := n.Seal(ph, mininet.Zone, 1<<24); err != nil {
+		if _, err := n.Seal(ph, order, 1<<24); err != nil {
 			fatal(3, "seal:", err)
 		}
 		m, err := n.Assemble(ph)
 		if err != nil {
 			fatal(3, "assemble:", err)
 		}
+		if m.Order != order {
+			fatal(3, "assembled block has order", m.Order, "want", order)
+		}
 		return m
 	}
-	restart := func(img ethdb.Database) error { return n.RestartZone(img) }
+	copyMined := func(m *mininet.Mined) (*mininet.Mined, error) {
+		cp := &mininet.Mined{Order: m.Order, Hash: m.Hash}
+		for ctx := mininet.Zone; ctx >= m.Order; ctx-- {
+			b, err := mininet.RoundTrip(m.Blocks[ctx], mininet.Locs[ctx])
+			if err != nil {
+				return nil, err
+			}
+			cp.Blocks[ctx] = b
+		}
+		return cp, nil
+	}
+	// offer a block as a peer would: body to every level it belongs to, Core.InsertChain at its order level (again while
+	// the node answers "cannot append yet"), then make it the head.  Unlike mininet.Insert this never calls Slice.Append
+	// directly: InsertChain's follow-up work (pending ETXs to the dominant chain) is part of what must survive a crash.
+	offer := func(m *mininet.Mined, retries *int) error {
+		var err error
+		for try := 0; try < 16; try++ {
+			var cp *mininet.Mined
+			if cp, err = copyMined(m); err != nil {
+				return err
+			}
+			for ctx := mininet.Zone; ctx >= cp.Order; ctx-- {
+				n.Cores[ctx].Slice().WriteBlock(cp.Blocks[ctx])
+			}
+			if _, err = n.Cores[cp.Order].InsertChain(types.WorkObjects{cp.Blocks[cp.Order]}); err == nil {
+				for ctx := mininet.Zone; ctx >= cp.Order; ctx-- {
+					if n.Cores[ctx].GetHeaderByHash(cp.Hash) == nil || n.Cores[ctx].Slice().HeaderChain().GetTerminiByHash(cp.Hash) == nil {
+						// InsertChain swallows the reason; ask Append for it (diagnosis of a failure only)
+						_, aerr := n.Cores[cp.Order].Slice().Append(cp.Blocks[cp.Order], common.Hash{}, false, nil)
+						return fmt.Errorf("block was not appended at level %s: %v", dbNames[ctx], aerr)
+					}
+				}
+				return n.Advance(cp)
+			}
+			if !retryable(err) {
+				return err
+			}
+			*retries++
+		}
+		return fmt.Errorf("still refused after 16 offers: %w", err)
+	}
 
-	// recovery obligations on a freshly restarted zone; redo() completes the interrupted operation
-	recover := func(redo func() error) (string, error) {
+	// ---- independent observations
+	zoneChecks := func() (string, error) {
 		z := n.ZoneCore()
 		H := z.CurrentHeader()
 		if H == nil {
-			return "b-head", fmt.Errorf("no current header")
+			return "b-head", fmt.Errorf("zone: no current header")
 		}
-		if H.NumberU64(common.ZONE_CTX) > 0 {
-			st, err := chain.ScanState(n.DBs[mininet.Zone], mininet.ZoneLoc)
-			if err != nil {
-				return "b-scan", err
-			}
-			root, size := st.Commitment()
-			if root != H.UTXORoot() {
-				return "b-commitment", fmt.Errorf("head %d: UTXO root in header does not match the stored 'ut'/'cl' records", H.NumberU64(2))
-			}
-			if size != rawdb.ReadUTXOSetSize(n.DBs[mininet.Zone], H.Hash()) {
-				return "b-commitment", fmt.Errorf("head %d: stored UTXO set size does not match the number of records", H.NumberU64(2))
-			}
-			if _, err := z.Processor().StateAt(H.EVMRoot(), H.EtxSetRoot(), H.QuaiStateSize()); err != nil {
-				return "b-state", fmt.Errorf("head state does not open: %v", err)
-			}
-			// canonical index must lead from the head back to genesis
-			cur := H
-			for cur.NumberU64(2) > 0 {
-				if rawdb.ReadCanonicalHash(n.DBs[mininet.Zone], cur.NumberU64(2)) != cur.Hash() {
-					return "b-canonical", fmt.Errorf("canonical index at %d does not point to the head's ancestor", cur.NumberU64(2))
-				}
-				cur = z.GetHeaderByHash(cur.ParentHash(2))
-				if cur == nil {
-					return "b-canonical", fmt.Errorf("ancestor header missing")
-				}
-			}
+		if H.NumberU64(common.ZONE_CTX) == 0 {
+			return "", nil
 		}
-		if err := n.SetHead(P, R, H.Hash()); err != nil {
-			return "c-pending-header", err
+		st, err := chain.ScanState(n.DBs[mininet.Zone], mininet.ZoneLoc)
+		if err != nil {
+			return "b-scan", err
 		}
-		if err := redo(); err != nil {
-			return "d-redo", err
+		root, size := st.Commitment()
+		if root != H.UTXORoot() {
+			return "b-commitment", fmt.Errorf("head %d: UTXO root in header does not match the stored 'ut'/'cl' records", H.NumberU64(2))
 		}
-		if _, err := n.MineOne(mininet.Zone); err != nil {
-			return "e-mine-on", err
+		if size != rawdb.ReadUTXOSetSize(n.DBs[mininet.Zone], H.Hash()) {
+			return "b-commitment", fmt.Errorf("head %d: stored UTXO set size does not match the number of records", H.NumberU64(2))
+		}
+		if _, err := z.Processor().StateAt(H.EVMRoot(), H.EtxSetRoot(), H.QuaiStateSize()); err != nil {
+			return "b-state", fmt.Errorf("head state does not open: %v", err)
 		}
 		return "", nil
 	}
-
-	enumerate := func(step int, kind string, I0 ethdb.Database, op func() error, redo func() error, ntx int) {
-		// learn the write sequence
-		if err := restart(snapshot(I0)); err != nil {
-			fatal(3, "restart:", err)
-		}
-		n.SetHead(P, R, n.ZoneCore().CurrentHeader().Hash())
-		ctl.Arm(-1)
-		if err := op(); err != nil {
-			fatal(3, "step fails without any crash:", err)
-		}
-		ops := append([]faultdb.Op{}, ctl.Ops...)
-		ctl.Disarm()
-		N := len(ops)
-		stepsOut = append(stepsOut, stepInfo{Kind: kind, Ops: ops, Points: N + 1, NTx: ntx})
-		for i := 0; i <= N; i++ {
-			if err := restart(snapshot(I0)); err != nil {
-				fatal(3, "restart:", err)
+	canonChecks := func() (string, error) {
+		for ctx := 0; ctx < 3; ctx++ {
+			c := n.Cores[ctx]
+			cur := c.CurrentHeader()
+			if cur == nil {
+				return "b-head", fmt.Errorf("%s: no current header", dbNames[ctx])
 			}
-			n.SetHead(P, R, n.ZoneCore().CurrentHeader().Hash())
-			ctl.Arm(i)
-			op() // the process dies after i write operations; later writes are lost
-			F := snapshot(n.DBs[mininet.Zone])
-			ctl.Disarm()
-			totalPoints++
-			window := "start|"
-			if i > 0 {
-				window = ops[i-1].Class + "|"
+			if rawdb.ReadHeadBlockHash(n.DBs[ctx]) != cur.Hash() {
+				return "b-head", fmt.Errorf("%s: reported head is not the stored head pointer", dbNames[ctx])
 			}
-			if i < N {
-				window += ops[i].Class
-			} else {
-				window += "end"
+			if c.GetBlockByHash(cur.Hash()) == nil {
+				return "b-head", fmt.Errorf("%s: block of the reported head is not readable", dbNames[ctx])
 			}
-			if err := restart(F); err != nil {
-				failures = append(failures, crashFailure{step, kind, i, N, window, "a-restart", err.Error()})
-				continue
-			}
-			if phase, err := recover(redo); err != nil {
-				failures = append(failures, crashFailure{step, kind, i, N, window, phase, err.Error()})
+			for cur.NumberU64(ctx) > 0 {
+				if rawdb.ReadCanonicalHash(n.DBs[ctx], cur.NumberU64(ctx)) != cur.Hash() {
+					return "b-canonical", fmt.Errorf("%s: canonical index at %d does not point to the head's ancestor", dbNames[ctx], cur.NumberU64(ctx))
+				}
+				if cur = c.GetHeaderByHash(cur.ParentHash(ctx)); cur == nil {
+					return "b-canonical", fmt.Errorf("%s: ancestor header missing", dbNames[ctx])
+				}
 			}
 		}
+		return "", nil
+	}
+	// ETX bookkeeping of the given blocks at every level + zone ledger digest + heads, as raw database records
+	// (only records the protocol consumes: pending ETXs 'pe' are read by the region when it rolls up its zones, rollups 'pr'
+	// by prime; the copies of 'pe' in prime and of 'pr' in region are never read by anything)
+	recPrefixes := [3][]string{{"ie", "pr", "tk", "ma"}, {"ie", "pe", "tk", "ma"}, {"ie", "tk", "ma"}}
+	records := func(hashes []common.Hash) (map[string]string, int) {
+		out := map[string]string{}
+		netx := 0
+		for ctx := 0; ctx < 3; ctx++ {
+			for i, h := range hashes {
+				for _, p := range recPrefixes[ctx] {
+					v, _ := n.DBs[ctx].Get(append([]byte(p), h.Bytes()...))
+					out[fmt.Sprintf("%s:%s:%d", dbNames[ctx], p, i)] = hex.EncodeToString(v)
+				}
+				netx += len(rawdb.ReadInboundEtxs(n.DBs[ctx], h))
+			}
+			out[dbNames[ctx]+":head"] = n.Cores[ctx].CurrentHeader().Hash().Hex()
+		}
+		if st, err := chain.ScanState(n.DBs[mininet.Zone], mininet.ZoneLoc); err == nil {
+			out["zone:ledger"] = st.Digest()
+		} else {
+			out["zone:ledger"] = "scan failed: " + err.Error()
+		}
+		return out, netx
 	}
 
-	for step := 0; step < *nsteps; step++ {
-		if step%3 != 2 {
-			// ---- append of a zone-order block carrying real transactions
-			if err := restart(snapshot(n.DBs[mininet.Zone])); err != nil {
-				fatal(3, err)
-			}
-			n.SetHead(P, R, n.ZoneCore().CurrentHeader().Hash())
+	plan := strings.Split(*planS, ",")
+	for step, kindFull := range plan {
+		kind := strings.TrimSuffix(kindFull, "+size")
+		inflated := strings.HasSuffix(kindFull, "+size")
+		sf := 0
+		if inflated {
+			sf = *factor
+		}
+		// ---- prepare the step on a fresh process
+		if err := boot(snapshotAll(n)); err != nil {
+			fatal(3, "restart:", err)
+		}
+		P, R, Z := heads()
+		var op func() error
+		var want [3]common.Hash // heads after the step
+		var m *mininet.Mined
+		order, ntx := mininet.Zone, 0
+		switch kind {
+		case "zone", "region", "prime":
+			order = map[string]int{"zone": mininet.Zone, "region": mininet.Region, "prime": mininet.Prime}[kind]
+			r.ResetNonces()
 			r.RandomContent(6)
-			m := sealZone()
-			I0 := snapshot(n.DBs[mininet.Zone])
-			op := func() error {
-				if err := n.Insert(m); err != nil {
+			m = seal(order)
+			ntx = len(m.Blocks[mininet.Zone].Transactions())
+			want = [3]common.Hash{P, R, m.Hash}
+			if order <= mininet.Region {
+				want[mininet.Region] = m.Hash
+			}
+			if order <= mininet.Prime {
+				want[mininet.Prime] = m.Hash
+			}
+			op = func() error {
+				cp, err := copyMined(m)
+				if err != nil {
 					return err
 				}
-				return n.SetHead(P, R, m.Hash)
-			}
-			redo := func() error {
-				if n.ZoneCore().GetHeaderByHash(m.Hash) == nil {
-					if err := n.Insert(m); err != nil {
-						return err
-					}
-				}
-				if err := n.SetHead(P, R, m.Hash); err != nil {
+				if err := n.Insert(cp); err != nil {
 					return err
 				}
-				if n.ZoneCore().CurrentHeader().Hash() != m.Hash {
-					return fmt.Errorf("interrupted block did not become head")
-				}
-				return nil
+				return n.Advance(cp)
 			}
-			enumerate(step, "append", I0, op, redo, len(m.Blocks[mininet.Zone].Transactions()))
-			// apply for real and continue
-			if err := restart(snapshot(I0)); err != nil {
-				fatal(3, err)
-			}
-			n.SetHead(P, R, n.ZoneCore().CurrentHeader().Hash())
-			if err := op(); err != nil {
-				fatal(3, "real append:", err)
-			}
-		} else {
-			// ---- reorganisation: H -> A1 ; H -> B1 -> B2 (head) ; switch to A1
-			if err := restart(snapshot(n.DBs[mininet.Zone])); err != nil {
-				fatal(3, err)
-			}
-			H := n.ZoneCore().CurrentHeader().Hash()
-			n.SetHead(P, R, H)
+		case "reorg":
+			// H -> A1 ; H -> B1 -> B2 (head) ; switch to A1
 			mk := func() *mininet.Mined {
+				r.ResetNonces()
 				r.RandomContent(3)
-				m := sealZone()
-				if err := n.Insert(m); err != nil {
+				b := seal(mininet.Zone)
+				if err := n.Insert(b); err != nil {
 					fatal(3, "fork insert:", err)
 				}
-				if err := n.SetHead(P, R, m.Hash); err != nil {
+				if err := n.SetHead(P, R, b.Hash); err != nil {
 					fatal(3, "fork advance:", err)
 				}
-				return m
+				return b
 			}
 			a1 := mk()
-			if err := n.SetHead(P, R, H); err != nil {
+			if err := n.SetHead(P, R, Z); err != nil {
 				fatal(3, "back to fork point:", err)
 			}
 			mk()
 			mk()
-			I0 := snapshot(n.DBs[mininet.Zone])
-			op := func() error { return n.SetHead(P, R, a1.Hash) }
-			redo := func() error {
-				if err := n.SetHead(P, R, a1.Hash); err != nil {
+			want = [3]common.Hash{P, R, a1.Hash}
+			op = func() error { return n.SetHead(P, R, a1.Hash) }
+		default:
+			fatal(3, "unknown step kind", kindFull)
+		}
+		I0 := snapshotAll(n)
+		redo := func(retries *int) error {
+			if m != nil {
+				if err := offer(m, retries); err != nil {
 					return err
 				}
-				if n.ZoneCore().CurrentHeader().Hash() != a1.Hash {
-					return fmt.Errorf("interrupted head switch did not complete")
+			} else if err := op(); err != nil {
+				return err
+			}
+			p, rg, z := heads()
+			if [3]common.Hash{p, rg, z} != want {
+				return fmt.Errorf("interrupted step did not complete: heads prime=%v region=%v zone=%v", p == want[0], rg == want[1], z == want[2])
+			}
+			return nil
+		}
+
+		// ---- reference run: no crash; records the write sequence, then mines the continuation
+		if err := boot(I0); err != nil {
+			fatal(3, "restart:", err)
+		}
+		ctl.SetSizeFactor(sf)
+		ctl.Arm(-1)
+		if err := op(); err != nil {
+			fatal(3, "step fails without any crash:", err)
+		}
+		ops, _ := ctl.Seen()
+		ctl.Disarm()
+		ctl.SetSizeFactor(0)
+		if p, rg, z := heads(); [3]common.Hash{p, rg, z} != want {
+			fatal(3, "step without crash did not reach the expected heads")
+		}
+		var cont []*mininet.Mined
+		for i, o := range []int{mininet.Zone, mininet.Region, mininet.Prime, mininet.Zone} {
+			if i == 0 || i == 3 {
+				r.ResetNonces()
+				r.RandomContent(3)
+			}
+			x := seal(o)
+			if err := n.Insert(x); err != nil {
+				fatal(3, "continuation insert:", err)
+			}
+			if err := n.Advance(x); err != nil {
+				fatal(3, "continuation advance:", err)
+			}
+			cont = append(cont, x)
+		}
+		var hashes []common.Hash
+		if m != nil {
+			hashes = append(hashes, m.Hash)
+		}
+		for _, x := range cont {
+			hashes = append(hashes, x.Hash)
+		}
+		ref, refEtx := records(hashes)
+		N := len(ops)
+		info := stepInfo{Kind: kindFull, Order: order, Ops: ops, NTx: ntx, InboundEtxs: refEtx, RecordsCmp: len(ref)}
+
+		// ---- every prefix is a crash of the whole process
+		retryWin := map[string]bool{}
+		for i := 0; i <= N; i++ {
+			if inflated && i > 1 && i < N && ops[i-1].Class == "triebatch" && ops[i].Class == "triebatch" && ops[i-2].Class == "triebatch" {
+				// inside a run of content-addressed trie-node commits (the one size-triggered flush the unchanged code has):
+				// the first window of each run is enumerated, the others are equivalent
+				info.Skipped++
+				continue
+			}
+			if err := boot(I0); err != nil {
+				fatal(3, "restart:", err)
+			}
+			ctl.SetSizeFactor(sf)
+			ctl.Arm(i)
+			op() // the process dies after i write operations; later writes (to any database) are lost
+			seen, dropped := ctl.Seen()
+			window := "start|"
+			if k := len(seen); k > 0 {
+				window = opName(&seen[k-1]) + "|"
+			}
+			if dropped != nil {
+				window += opName(dropped)
+			} else {
+				window += "end"
+			}
+			specPos := 0
+			for _, o := range seen {
+				if specClass(&o) != "" {
+					specPos++
 				}
-				return nil
 			}
-			enumerate(step, "reorg", I0, op, redo, 0)
-			if err := restart(snapshot(I0)); err != nil {
-				fatal(3, err)
+			F := snapshotAll(n)
+			ctl.SetSizeFactor(0)
+			totalPoints++
+			info.Points++
+			info.SpecPositions = append(info.SpecPositions, specPos)
+			info.RedoSpec = append(info.RedoSpec, nil)
+			fail := func(phase string, err error) {
+				failures = append(failures, crashFailure{step, kindFull, i, N, window, phase, err.Error()})
 			}
-			n.SetHead(P, R, n.ZoneCore().CurrentHeader().Hash())
-			if err := op(); err != nil {
-				fatal(3, "real reorg:", err)
+			if err := func() error { // (a) all three levels open
+				ctl.NewGeneration()
+				ctl.Disarm()
+				return n.RestartAll(F.copy())
+			}(); err != nil {
+				fail("a-restart", err)
+				continue
+			}
+			if phase, err := zoneChecks(); err != nil {
+				fail(phase, err)
+				continue
+			}
+			if phase, err := canonChecks(); err != nil {
+				fail(phase, err)
+				continue
+			}
+			retries := 0
+			if kind == "zone" || kind == "reorg" {
+				// the dominant chains did not move: the pending header can be rebuilt on the reported heads right away
+				if p, rg, z := heads(); p != P || rg != R {
+					fail("b-head", fmt.Errorf("a zone-level step moved a dominant head"))
+					continue
+				} else if err := n.SetHead(p, rg, z); err != nil {
+					fail("c-pending-header", err)
+					continue
+				}
+			}
+			ctl.Arm(-1)
+			err := redo(&retries)
+			redoOps, _ := ctl.Seen()
+			ctl.Disarm()
+			if err != nil {
+				fail("d-redo", err)
+				continue
+			}
+			rs := []string{}
+			for _, o := range redoOps {
+				if c := specClass(&o); c != "" {
+					rs = append(rs, c)
+				}
+			}
+			info.RedoSpec[len(info.RedoSpec)-1] = rs
+			if phase, err := zoneChecks(); err != nil {
+				fail("d-redo/"+phase, err)
+				continue
+			}
+			bad := false
+			for k, x := range cont {
+				if err := offer(x, &retries); err != nil {
+					fail(fmt.Sprintf("e-continue-%d-order%d", k, x.Order), err)
+					bad = true
+					break
+				}
+			}
+			if bad {
+				continue
+			}
+			got, _ := records(hashes)
+			var diff []string
+			for k, v := range ref {
+				if got[k] != v {
+					diff = append(diff, fmt.Sprintf("%s(%d bytes, reference %d)", k, len(got[k])/2, len(v)/2))
+				}
+			}
+			if len(diff) > 0 {
+				sort.Strings(diff)
+				fail("f-records", fmt.Errorf("records differ from the node that did not crash: %s", strings.Join(diff, " ")))
+				continue
+			}
+			if phase, err := zoneChecks(); err != nil {
+				fail("f-records/"+phase, err)
+				continue
+			}
+			if _, err := n.MineOne(-1); err != nil {
+				fail("g-mine-on", err)
+				continue
+			}
+			if retries > 0 {
+				info.Retries += retries
+				retryWin[window] = true
 			}
 		}
+		for w := range retryWin {
+			info.RetryWindows = append(info.RetryWindows, w)
+		}
+		sort.Strings(info.RetryWindows)
+		stepsOut = append(stepsOut, info)
+
+		// ---- apply for real and continue from there
+		if err := boot(I0); err != nil {
+			fatal(3, "restart:", err)
+		}
+		if err := op(); err != nil {
+			fatal(3, "real step:", err)
+		}
 	}
-	res := map[string]interface{}{"steps": stepsOut, "crash_points": totalPoints, "failures": failures}
+	res := map[string]interface{}{"steps": stepsOut, "crash_points": totalPoints, "failures": failures, "sizefactor": *factor}
 	b, _ := json.MarshalIndent(res, "", " ")
 	if err := os.WriteFile(*out, b, 0o644); err != nil {
 		fatal(3, err)
 	}
 	fmt.Printf("{\"crash_points\":%d,\"failures\":%d,\"steps\":%d}\n", totalPoints, len(failures), len(stepsOut))
+}
+
+// specClass maps a recorded write operation to the write of spec/HierCrash.tla / spec/ZoneChain.tla it realises
+// ("" = not consistency relevant: trie nodes, pending headers, lookup entries ...).
+func specClass(o *faultdb.Op) string {
+	switch o.Class {
+	case "body", "appendbatch", "canon", "head", "blockbatch", "rollbackbatch", "rollbackbatch-without-head", "pendingetxs", "pendingetxsrollup", "inboundetxs":
+		return o.DB + ":" + o.Class
+	}
+	return ""
 }
